@@ -66,7 +66,7 @@ def run(ctx):
     # different width (LL): always, as a unit of its own
     db = os.path.join(scratch, "pb")
     os.makedirs(db)
-    ub, _, nb = vcgen.emit_units(db, "LB,LL", 1)
+    ub, _, nb = vcgen.emit_units(db, "LB,LL,LW", 1)
     units += ub
     nfun += nb
     jobs = []
